@@ -57,8 +57,14 @@ def hasValueModule : Sexp → Bool
     | _ => false
   | _ => false
 
+/-- conditional types are terms of the semantic requests, not of the compiler model of whole programs (see `rewriteOp`) -/
+partial def watchMentionsSemOperator : Sexp → Bool
+  | .list (.atom h :: rest) => ["cond", "idx", "keyof"].contains h || rest.any watchMentionsSemOperator
+  | .list xs => xs.any watchMentionsSemOperator
+  | _ => false
+
 def watchOp (filesS opsS : Sexp) : Sexp :=
-  if hasValueModule filesS then .atom "untied" else
+  if hasValueModule filesS || watchMentionsSemOperator filesS then .atom "untied" else
   match decWatchFiles filesS, decOps opsS with
   | some files, some ops =>
     let w := watchWorld files
